@@ -628,6 +628,10 @@ class RecordContextMatcher:
             comptype = type(node.ops[0])
             comp = AST_COMPARATORS[comptype]
 
+            # A comparison with a field that does not exist on the record is always False
+            if comptype not in (ast.Is, ast.IsNot) and (isinstance(left, NoneObject) or isinstance(right, NoneObject)):
+                return False
+
             # Special case for __contains__, where we need to first unwrap all values matching the Type query
             if comptype in (ast.In, ast.NotIn) and isinstance(left, TypeMatcherInstance):
                 for v in left._values():
